@@ -147,7 +147,9 @@ AppendTgClauses(e) ==
   IN [ C09_append_textgrid_succeeds |-> kindsAgree => OkE(e),
        C09_append_textgrid_tier_set |-> RetTg(e) => Names(r) = expectNames,
        C09_append_textgrid_entries |-> (RetTg(e) /\ A2(e) /\ Names(r) = expectNames) => \A i \in Idx(expectNames) : sameEnts(expectNames[i]),
-       C09_append_textgrid_span |-> (RetTg(e) /\ A2(e)) => (r.lo = A.lo /\ r.hi = A.hi + B.hi) ]
+       C09_append_textgrid_span |-> (RetTg(e) /\ A2(e)) => (r.lo = A.lo /\ r.hi = A.hi + B.hi),
+       \* "A's entries unchanged ... B's entries shifted": in the result; A and B themselves stay as they were
+       C09_append_textgrid_leaves_both_operands_as_they_were |-> e.post = e.pre /\ e.argtgpost = e.argtg ]
 
 (* ---------------- mergeTiers ------------------------------------------------------ *)
 (* e.each = << union-fold of the selected interval tiers, of the selected point tiers >> in that order, *)
